@@ -498,6 +498,15 @@ func (g *vGen) vaaBytes() (string, bool) {
 	if r.below(10) == 0 {
 		copy(v.EmitterAddress[:], r.bytes(32))
 	}
+	// zero values of the filter type: emitter chain 0 and / or the all-zero emitter address (a valid VAA may carry both)
+	switch r.below(16) {
+	case 0:
+		v.EmitterChain, v.EmitterAddress = 0, vaa.Address{}
+	case 1:
+		v.EmitterChain = 0
+	case 2:
+		v.EmitterAddress = vaa.Address{}
+	}
 	for i, n := 0, r.below(3); i < n; i++ {
 		sg := &vaa.Signature{Index: uint8(i)}
 		copy(sg.Signature[:], r.bytes(65))
@@ -595,6 +604,15 @@ func (g *vGen) matching() []vOp {
 			h, dec := g.vaaBytes()
 			ops = append(ops, vOp{Op: "pub", N: npub, Hex: h, Dec: dec})
 			npub++
+		}
+		if i == n/2 && len(live) > 0 {
+			// a VAA whose emitter is the zero value of the filter type (chain 0, all-zero address), published while subscriptions are live
+			g.seq++
+			z := &vaa.VAA{Version: 1, Timestamp: time.Unix(1600000000, 0), Sequence: g.seq, Payload: []byte{1}}
+			if b, err := z.Marshal(); err == nil {
+				ops = append(ops, vOp{Op: "pub", N: npub, Hex: hex.EncodeToString(b), Dec: true})
+				npub++
+			}
 		}
 	}
 	return ops
